@@ -63,7 +63,7 @@ def run_tlc(ctx, module, cfg, env=None, workers=None, extra=(), timeout=3600,
     shutil.rmtree(meta, ignore_errors=True)
     os.makedirs(meta)
     log = ctx.path(name + ".tlc.log")
-    cmd = ["java", "-XX:+UseParallelGC", "-Xmx" + heap, "-cp", TLA_CP, "tlc2.TLC",
+    cmd = ["java", "-XX:+UseParallelGC", "-Xmx" + heap, "-Djava.io.tmpdir=" + meta, "-cp", TLA_CP, "tlc2.TLC",
            "-workers", str(workers or NCPU), "-metadir", meta, "-noGenerateSpecTE",
            "-config", os.path.join(SPEC, "mc", cfg)]
     if not deadlock:
